@@ -11,6 +11,7 @@ Observations (lines) are what Trace_Dispatch.tla consumes: call / B / N / E / re
 """
 import asyncio
 import contextvars
+import re
 import sys
 import threading
 
@@ -128,6 +129,21 @@ def watched_codes(extra):
     return codes
 
 
+_HOT = re.compile(r"_processing|_external_queue|queue|\.put\(|popleft|\.pop\(|\.clear\(|acquire|release|locked|"
+                  r"processing_loop|_put_nonblocking|append")
+_hot_cache = {}
+
+
+def is_hot(code, lineno):
+    """Does the source line about to run touch the state the senders share (lock, queue)?  Used only to ORDER the
+    exploration (preemptions right before such lines first); every line boundary stays a candidate."""
+    key = (code, lineno)
+    if key not in _hot_cache:
+        import linecache
+        _hot_cache[key] = bool(_HOT.search(linecache.getline(code.co_filename, lineno)))
+    return _hot_cache[key]
+
+
 class LineScheduler:
     def __init__(self, n, schedule, codes):
         self.n = n
@@ -138,6 +154,7 @@ class LineScheduler:
         self.step = 0
         self.finished = set()
         self.who_at = []                    # tid that hit boundary number k
+        self.hot_at = []                    # ... and whether the line about to run touches shared state
         self.error = None
 
     def wait_turn(self, tid):
@@ -147,10 +164,11 @@ class LineScheduler:
                     self.error = self.error or f"scheduler stuck waiting for turn of {tid}"
                     raise RuntimeError(self.error)
 
-    def boundary(self, tid):
+    def boundary(self, tid, hot=False):
         with self.cv:
             self.step += 1
             self.who_at.append(tid)
+            self.hot_at.append(hot)
             target = self.schedule.get(self.step)
             if target is not None and target != tid and target not in self.finished:
                 self.turn = target
@@ -173,7 +191,7 @@ class LineScheduler:
 
         def local(frame, event, arg):
             if event == "line":
-                self.boundary(tid)
+                self.boundary(tid, is_hot(frame.f_code, frame.f_lineno))
             return local
 
         def glob(frame, event, arg):
@@ -220,7 +238,7 @@ def run_threads(nsenders, per, plan, schedule):
     if any(t.is_alive() for t in ths) or errors:
         raise RuntimeError(f"thread run failed: {errors or 'hang'}")
     rec.lines.append(finish_line(sm))
-    return {"lines": rec.lines, "steps": sched.step, "who_at": sched.who_at,
+    return {"lines": rec.lines, "steps": sched.step, "who_at": sched.who_at, "hot_at": sched.hot_at,
             "senders": nsenders, "per": per}
 
 
